@@ -103,7 +103,10 @@ theorem noteLabel_inv (s s' : DC) (x : Xml) (k : String) (hs : Inv s) (h : noteL
   obtain ⟨sep, _, h⟩ := bind_ok h
   split at h
   · have := pure_ok h; subst this; exact hs
-  · obtain ⟨id, _, h⟩ := bind_ok h; have := pure_ok h; subst this; exact inv_of_same s _ hs rfl rfl
+  · obtain ⟨id, _, h⟩ := bind_ok h
+    obtain ⟨s0, h0, h⟩ := bind_ok h
+    have i0 := flushImplicit_preserves concludePar_inv s s0 _ hs h0
+    have := pure_ok h; subst this; exact inv_of_same s0 _ i0 rfl rfl
 
 theorem insertOpt_inv (html : Bool) (s s' : DC) (t : Option Str) (hs : Inv s) (h : insertOpt html s t = .ok s') :
     Inv s' := by
